@@ -5,6 +5,7 @@ package store
 
 import (
 	"context"
+	"strings"
 	"errors"
 	"io"
 
@@ -523,4 +524,57 @@ func VerifC08CorruptLater() {
 	rd.aof.Close()
 	rd.Close()
 	verifReach("c08.corrupt-later-end")
+}
+
+// ---------------------------------------------------------------------------
+// C06 (disk cache side): looking up which of the source's ids the cache holds must not relabel
+// cached bytes: a cache written under one replication id is only ever offered under that id.
+
+// VerifC06VerifyRunId: the cache holds a log under id r0; the source reports its ids (current
+// first) as [r1, r0], [r1] or [r0]; Storer.VerifyRunId answers with r0's newest offset when r0 is
+// among them and leaves the cache under r0 in every case.
+func VerifC06VerifyRunId() {
+	verifFS = verifNewFS()
+	verifFS.add(verifBaseDir, &verifNode{dir: true})
+	s := verifNewStorer(2, 0)
+	verifAssert(s.SetRunId("r0") == nil, "C06.store.set-runid")
+	chunks, all := verifChunks("aof", verifParam("CHUNKS", 2), verifParam("CHUNKMAX", 3))
+	w, err := s.GetAofWritter(&verifSrc{chunks: chunks}, 100)
+	verifAssert(err == nil, "C06.store.new-aof-writer")
+	w.Start()
+	w.Wait(context.Background())
+	right := int64(100 + len(all))
+	var before []string
+	before = append(before, verifFS.children(verifBaseDir+"/r0")...)
+
+	var ids []string
+	switch verifChoose("ids", 3) {
+	case 0:
+		ids = []string{"r1", "r0"} // after a fail-over: the previous id is still reported
+	case 1:
+		ids = []string{"r1"} // an unrelated history
+	default:
+		ids = []string{"r0"}
+	}
+	off, verr := s.VerifyRunId(ids)
+	verifAssert(verr == nil, "C06.store.verify-runid-error")
+	// r0's bytes are offered under r0 only: no other id's directory holds segments now, and if the
+	// cache switched to another id it serves nothing under it
+	for _, p := range verifFS.paths {
+		if strings.HasPrefix(p, verifBaseDir+"/") && !strings.HasPrefix(p, verifBaseDir+"/r0") && strings.Count(p, "/") > 2 {
+			verifAssert(false, "C06.cache-relabelled-by-lookup")
+		}
+	}
+	l, r := s.GetOffsetRange()
+	if s.RunId() == "r0" {
+		verifAssert(l == 100 && r == right, "C06.store.range-changed-by-lookup")
+		after := verifFS.children(verifBaseDir + "/r0")
+		verifAssert(len(after) == len(before), "C06.store.range-changed-by-lookup")
+		if len(ids) == 2 || ids[0] == "r0" {
+			verifAssert(off == right, "C06.store.lookup-misses-cached-history")
+		}
+	} else {
+		verifAssert(l == -1 && r == -1, "C06.cache-relabelled-by-lookup")
+	}
+	verifReach("c06.store.lookup-done")
 }
